@@ -36,6 +36,9 @@ LAYOUTS = {
     'unsorted-4col': {'wl': [4.5, 6.0, 3.5], 'bw': [0.4, 0.5, 0.3]},
     # narrow range well inside all the others (an observation replaced by a wider one must not leave its range behind)
     '3col-narrow': {'wl': [4.8, 5.0, 5.2], 'bw': None},
+    # a broad photometric band whose centre lies inside a run of narrow spectral bins and whose edges reach far beyond
+    # them on both sides
+    '4col-band-in-narrow': {'wl': [4.0, 4.1, 4.2, 4.3, 4.4, 4.25], 'bw': [0.05, 0.05, 0.05, 0.05, 0.05, 2.4]},
 }
 
 
@@ -260,6 +263,10 @@ def obs_rows(layout, spectrum, errors):
 def error_bars(kind, n):
     if kind == 'constant':
         return [4e-5] * n
+    if kind == 'tiny':           # so small that their product underflows (their logarithms do not)
+        return [(1.0 + 0.3 * i) * 1e-90 for i in range(n)]
+    if kind == 'huge':           # ... or overflows
+        return [(1.0 + 0.3 * i) * 1e90 for i in range(n)]
     return [(2.0 + 1.7 * i) * 1e-5 for i in range(n)]
 
 
